@@ -103,7 +103,7 @@ def cases(tier):
     out = []
     grid = list(range(1, 8))
     for f in FEATURES:
-        sets = [()] + [(k,) for k in grid]
+        sets = [()] + [(k,) for k in grid] + [(0,), (0, 3)]       # (0: a first segment of duration zero)
         if tier == "thorough":
             sets += list(itertools.combinations(grid, 2))
             if f in ("rule_level_else", "level_pair", "time"):
